@@ -65,7 +65,7 @@ func runC13(p *Plan) {
 		}
 		if s.Kind == "solo" {
 			p.Out.Line("PD " + s.Name + " S 1 F " + texprToks(s.Expr))
-		} else if s.Kind == "field" {
+		} else if s.Kind == "field" || s.Kind == "conly" {
 			p.Out.Line("PD " + s.Name + " S 3 A N int32 F " + texprToks(s.Expr) + " Z L N byte")
 		} else {
 			p.Out.Line("PD " + s.Name + " " + texprToks(s.Expr))
